@@ -29,7 +29,7 @@ HOSTS = ["a", "b", "c.example", "b'x'"]
 PORTS = [80, 81, 443]
 PATHS = ["/p", "/q", "/p;v=1", "/"]
 PARAMS = ["a", "b", "c", "A"]
-VALUES = ["1", "2", "", "x y"]
+VALUES = ["1", "2", "", "x y", "a", "b"]
 BODIES = [b"", b"x", b"a=1&b=2", b"a=1&b=3", b"a=2&b=2", b"c=1", None, b"\xff\x00'"]
 HDR_NAMES = ["X-A", "x-a", "X-B", "Host", "Cookie"]
 HDR_VALUES = ["1", "2", "", "a, b", "hé"]
